@@ -2,17 +2,239 @@
 
 package binpatch
 
-// H12.c: Load on arbitrary bytes: no panic, no header-sized allocation.
+import (
+	"bytes"
+	"os"
+)
+
+// H12.c: Load on arbitrary bytes: no panic, no header-sized allocation,
+// truncated input rejected.
 func VH_C12_LoadGarbage() {
 	n := vhInt("len", 0, 40)
 	b := vhBytes("blob", n)
 	vhAllocLimit(16*len(b) + 4096)
 	p, err := Load(b)
 	if err == nil {
-		vhReach("load-ok")
+		vhReach("load-ok") // vh:require load-ok
 		vhAssert(len(p.Patches) == len(p.Blobs), "patches-blobs-same-len")
+		total := 8 + 16*len(p.Patches)
+		for i := range p.Patches {
+			vhAssert(int(p.Patches[i].NewSize) == len(p.Blobs[i]), "newsize-is-blob-len")
+			total += len(p.Blobs[i])
+		}
+		vhAssert(total <= len(b), "accepted-blob-not-truncated")
 	} else {
-		vhReach("load-err")
+		vhReach("load-err") // vh:require load-err
 	}
 }
 
+type vhRange struct {
+	off, old int64
+	blob     []byte
+}
+
+// reference splice: walk ranges, copy gap, emit blob
+func vhSplice(data []byte, rs []vhRange) []byte {
+	var want []byte
+	pos := int64(0)
+	for _, r := range rs {
+		want = append(want, data[pos:r.off]...)
+		want = append(want, r.blob...)
+		pos = r.off + r.old
+	}
+	return append(want, data[pos:]...)
+}
+
+func vhBuild(n int, k int) (*PatchSet, []vhRange) {
+	p := New()
+	var rs []vhRange
+	pos := int64(0)
+	np := vhInt("npatches", 0, k)
+	for i := 0; i < np; i++ {
+		off := int64(vhConcretize(vhInt("off", 0, n), 8))
+		old := int64(vhConcretize(vhInt("old", 0, n), 8))
+		vhAssume(off >= pos && off+old <= int64(n))
+		blob := vhBytes("blob", vhInt("bloblen", 0, 2))
+		p.Add(off, old, blob)
+		rs = append(rs, vhRange{off, old, blob})
+		pos = off + old
+	}
+	return p, rs
+}
+
+// H12.a: Add* then Apply (in place or by rewrite, same path / other path /
+// hard-linked path) yields exactly the reference splice.
+func VH_C12_AddApply() {
+	maxN, k := 4, 2
+	if vhTier() > 0 {
+		maxN, k = 6, 3
+	}
+	n := vhInt("filelen", 0, maxN)
+	data := vhBytes("file", n)
+	inPath := vhFSPath("in.bin")
+	vhFSPut(inPath, data)
+	samePath := vhBool("same")
+	linked := vhBool("hardlink")
+	outPath := inPath
+	if !samePath {
+		outPath = vhFSPath("out.bin")
+		if vhBool("out-exists") {
+			vhFSPut(outPath, []byte{0xEE})
+		}
+	}
+	otherPath := vhFSPath("other.bin")
+	if linked {
+		vhFSLink(inPath, otherPath)
+	}
+	p, rs := vhBuild(n, k)
+	want := vhSplice(data, rs)
+	roundTrip := vhBool("dump-load")
+	if roundTrip {
+		q, err := Load(p.Dump())
+		vhAssert(err == nil, "load-of-dump-ok")
+		if err != nil {
+			return
+		}
+		p = q
+	}
+	f, err := os.OpenFile(inPath, os.O_RDWR, 0)
+	vhAssume(err == nil)
+	err = p.Apply(f, outPath)
+	vhAssert(err == nil, "apply-ok")
+	got, ok := vhFSGet(outPath)
+	vhAssert(ok, "output-exists")
+	vhAssert(bytes.Equal(got, want), "output-equals-splice")
+	vhReach("applied") // vh:require applied
+	if !samePath {
+		in2, _ := vhFSGet(inPath)
+		vhAssert(bytes.Equal(in2, data), "input-untouched")
+	}
+	if linked {
+		o, _ := vhFSGet(otherPath)
+		if samePath {
+			vhAssert(bytes.Equal(o, data), "hardlinked-sibling-untouched")
+		}
+	}
+	vhAssert(vhFSCountPrefix(outPath+".tmp") == 0, "no-temp-left")
+}
+
+// canonical edit script: merge adjacent ranges
+func vhCanon(rs []vhRange) []vhRange {
+	var out []vhRange
+	for _, r := range rs {
+		if n := len(out); n > 0 && out[n-1].off+out[n-1].old == r.off {
+			out[n-1].old += r.old
+			out[n-1].blob = append(append([]byte{}, out[n-1].blob...), r.blob...)
+			continue
+		}
+		out = append(out, vhRange{r.off, r.old, append([]byte{}, r.blob...)})
+	}
+	return out
+}
+
+// H12.d: Add with fully symbolic 64-bit offsets and sizes (covers > 4 GiB
+// ranges and the coalescing / uint32Max splitting logic): the stored patch
+// list describes the same edit script as the calls, and the representation
+// invariant holds.
+func VH_C12_AddSymbolic() {
+	k := 2
+	if vhTier() > 0 {
+		k = 3
+	}
+	vhUnwind(40)
+	p := New()
+	var rs []vhRange
+	pos := int64(0)
+	np := vhInt("npatches", 1, k)
+	const lim = int64(1) << 34 // offsets/sizes up to 16 GiB: crosses the uint32 split
+	for i := 0; i < np; i++ {
+		off := int64(vhU64("off"))
+		old := int64(vhU64("old"))
+		vhAssume(off >= pos && off <= lim && old >= 0 && old <= lim)
+		blob := vhBytes("blob", vhInt("bloblen", 0, 2))
+		p.Add(off, old, blob)
+		rs = append(rs, vhRange{off, old, blob})
+		pos = off + old
+	}
+	vhAssert(len(p.Patches) == len(p.Blobs), "patches-blobs-same-len")
+	var got []vhRange
+	prevEnd := int64(-1)
+	for i, h := range p.Patches {
+		vhAssert(int(h.NewSize) == len(p.Blobs[i]), "newsize-is-blob-len")
+		vhAssert(h.Offset >= prevEnd, "ascending-non-overlapping")
+		prevEnd = h.Offset + int64(h.OldSize)
+		got = append(got, vhRange{h.Offset, int64(h.OldSize), p.Blobs[i]})
+	}
+	a, b := vhCanon(rs), vhCanon(got)
+	vhAssert(len(a) == len(b), "same-number-of-canonical-ranges")
+	if len(a) == len(b) {
+		for i := range a {
+			vhAssert(a[i].off == b[i].off && a[i].old == b[i].old, "same-range")
+			vhAssert(bytes.Equal(a[i].blob, b[i].blob), "same-blob")
+		}
+	}
+	vhReach("added") // vh:require added
+}
+
+// H12.b: Dump sorts by offset keeping blobs attached; Load(Dump(p)) is p
+// sorted, also after out-of-order Add calls.
+func VH_C12_DumpLoad() {
+	k := 3
+	p := New()
+	np := vhInt("npatches", 0, k)
+	type ent struct {
+		off  int64
+		old  uint32
+		blob []byte
+	}
+	var ents []ent
+	for i := 0; i < np; i++ {
+		off := int64(vhU32("off"))
+		old := vhU32("old")
+		blob := vhBytes("blob", vhInt("bloblen", 0, 2))
+		// build the set directly: out-of-order, no coalescing
+		p.Patches = append(p.Patches, PatchHeader{off, old, uint32(len(blob))})
+		p.Blobs = append(p.Blobs, blob)
+		for _, e := range ents {
+			vhAssume(e.off != off) // distinct offsets: sorted order is unique
+		}
+		ents = append(ents, ent{off, old, blob})
+	}
+	q, err := Load(p.Dump())
+	vhAssert(err == nil, "load-of-dump-ok")
+	if err != nil {
+		return
+	}
+	vhAssert(len(q.Patches) == np && len(q.Blobs) == np, "count-preserved")
+	for i := 0; i < len(q.Patches); i++ {
+		if i > 0 {
+			vhAssert(q.Patches[i-1].Offset < q.Patches[i].Offset, "sorted-by-offset")
+		}
+		// the entry with this offset keeps its own size and blob
+		found := false
+		for _, e := range ents {
+			if e.off == q.Patches[i].Offset {
+				found = true
+				vhAssert(e.old == q.Patches[i].OldSize, "oldsize-follows-header")
+				vhAssert(bytes.Equal(e.blob, q.Blobs[i]), "blob-follows-header")
+			}
+		}
+		vhAssert(found, "no-invented-offset")
+	}
+	vhReach("roundtrip") // vh:require roundtrip
+}
+
+// ApplyBinPatch-level rule: a truncated or unparsable patch is rejected by
+// Load, i.e. before the target is opened for writing (signers.ApplyBinPatch
+// calls Load first). Here: every strict prefix of a valid dump is rejected.
+func VH_C12_TruncatedRejected() {
+	p := New()
+	blob := vhBytes("blob", vhInt("bloblen", 0, 3))
+	p.Add(int64(vhU32("off")), int64(vhU16("old")), blob)
+	d := p.Dump()
+	cut := vhConcretize(vhInt("cut", 0, len(d)-1), 64)
+	vhAssume(cut < len(d))
+	_, err := Load(d[:cut])
+	vhAssert(err != nil, "truncated-dump-rejected")
+	vhReach("cut") // vh:require cut
+}
